@@ -11,7 +11,7 @@ META = {
     "rule": "K1 every public method of Analysis reaches the database only through with_db, whose body is Cancelled::catch(..); "
             "K2 Analysis holds a salsa::Snapshot and has no &mut method, AnalysisHost::apply_change takes &mut self and requests "
             "cancellation before writing; K3 the server maps a Cancelled error to REQUEST_CANCELLED before any other mapping. "
-            "One obligation per Analysis method / clause. K4 no public Analysis method discards a Cancelled error (unwrap_or*, ok(), an Err arm that reaches Ok(..)). K5/K6 = C11 H6/H7; K7 no build profile sets panic = abort.",
+            "One obligation per Analysis method / clause. K4 no public Analysis method discards a Cancelled error (unwrap_or*, ok(), an Err arm that reaches Ok(..)). K5/K6 = C11 H6/H7; K7 no build profile sets panic = abort; K10 = C09 Y6 (the inference groups are complete, else two groups ask for each other: a cycle). K9 = C10 Q10 (no cycle of the query graph can happen: snapshots taken after a change that closes an import cycle panicked). K8 = C10 Q9 (no recursive walk descends twice into one child: a 2^depth loop has no cancellation point, the change never completes).",
     "explanation": "Decides the narrow structural clauses that make cancellation surface as Err(Cancelled) rather than as an "
                    "unwinding panic and that make snapshot isolation salsa's job. The interleaving clauses of C12 (exactly the "
                    "pre-change answer or cancellation, prompt completion) quantify over schedules and are not decided.",
@@ -118,6 +118,13 @@ def run(F, res, tier):
     from rules import c11 as _c11
     _c11.value_equality_rules(F, res, rule="K5", rule2="K6")
     cancellation_can_unwind(F, res)
+    # a walk that doubles with every level of nesting never reaches a cancellation point: the change waits for it for ever
+    from rules import c10 as _c10
+    _c10.no_double_descent(F, res, rule="K8")
+    # never a panic: a query cycle met while salsa validates a memo after a change panics on every later snapshot
+    _c10.cycles_are_cut(F, res, rule="K9")
+    from rules import c09 as _c09
+    _c09.groups_scan_every_body(F, res, rule="K10")
 
 
 def apply_unconditional(F):
